@@ -34,6 +34,8 @@ var verifC06Strings = []string{
 	"2012-02-03 09:18:15", "2012-02-03T09:18:15Z", "2012-02-04",
 	// less common spellings of numbers: no leading or trailing digit, explicit sign, hexadecimal, long infinity
 	".5", "-.5", "5.", "+3", "0x1p-2", "Infinity",
+	// integers whose text is longer than the 19 digits of the largest int64
+	"-9223372036854775808", "-9223372036854775807", "+0000000000000000000002",
 }
 
 func verifC06Operand(tag string) *verifC06Op {
